@@ -196,7 +196,7 @@ Definition prog (en en' : StateModel.entry) (sd : bool) (nw : N) (m : option boo
   s_oid (gs en' sd) = s_oid (gs en sd) /\ s_spath (gs en' sd) = s_spath (gs en sd) /\
   s_shash (gs en' sd) = s_shash (gs en sd) /\ s_force (gs en' sd) = s_force (gs en sd) /\
   ((s_chg (gs en' sd) = s_chg (gs en sd) /\ m = None) \/
-   (tchg (s_chg (gs en sd)) = false /\ exists t, s_chg (gs en' sd) = CNum t /\ tchg (CNum t) = true /\ t <= nw /\ m = Some true)).
+   (exists t, s_chg (gs en' sd) = CNum t /\ tchg (CNum t) = true /\ chgval (s_chg (gs en sd)) <= t /\ t <= nw /\ m = Some true)).
 
 Lemma prog_refl en sd nw : prog en en sd nw None.
 Proof. repeat split; auto. Qed.
@@ -204,12 +204,12 @@ Lemma prog_trans en en1 en2 sd n1 n2 m1 m2 : n1 <= n2 -> prog en en1 sd n1 m1 ->
 Proof.
   intros Hle (A1 & B1 & C1 & D1 & E1 & F1 & G1) (A2 & B2 & C2 & D2 & E2 & F2 & G2).
   repeat (split; [congruence|]).
-  destruct G2 as [(G2 & ->)|(G2 & t & G3 & G4 & G5 & ->)]; cbn [mcomp].
-  - destruct G1 as [(G1 & ->)|(G1 & t & G3 & G4 & G5 & ->)]; [left; split; congruence|].
-    right. split; [exact G1|]. exists t. rewrite G2. repeat split; auto. lia.
-  - destruct G1 as [(G1 & ->)|(G1 & t' & G3' & G4' & G5' & ->)].
-    + right. split; [congruence|]. exists t. auto.
-    + exfalso. rewrite G3' in G2. congruence.
+  destruct G2 as [(G2 & Hm2)|(t & G3 & G4 & G5 & G6 & Hm2)]; subst m2; cbn [mcomp].
+  - destruct G1 as [(G1 & Hm1)|(t & G3 & G4 & G5 & G6 & Hm1)]; subst m1; [left; split; congruence|].
+    right. exists t. rewrite G2. repeat split; auto. lia.
+  - right. exists t. repeat split; auto.
+    destruct G1 as [(G1 & _)|(t' & G3' & G4' & G5' & G6' & _)]; [rewrite <- G1; exact G5|].
+    rewrite G3' in G5. simpl in G5. lia.
 Qed.
 
 Lemma prog_plain en sd f nw :
@@ -223,7 +223,8 @@ Lemma prog_touched en en' sd nw m : touched en en' sd nw m -> prog en en' sd nw 
 Proof.
   intros [(-> & ->)|(t & -> & A & B & C & ->)]; [apply prog_refl|].
   unfold prog. rewrite gs_ss_same, gs_ss_other, ign_ss. cbn [w_chg s_oid s_spath s_shash s_force s_chg].
-  repeat (split; [reflexivity|]). right. split; [exact A|]. exists t. auto.
+  repeat (split; [reflexivity|]). right. exists t. repeat split; auto.
+  destruct (s_chg (gs en sd)) as [| |c]; simpl in *; try lia. destruct c; [lia|discriminate].
 Qed.
 Lemma prog_prio0 en sd nw : prog en (prio_entry (env_of (cfg_std 1)) en 0) sd nw None.
 Proof.
@@ -356,7 +357,7 @@ Proof.
       apply (prog_trans en enC enE sd _ _ mA mE (proj1 HnowCF) PC X'). }
     split.
     { destruct PE as (A & B & C & D & F & G & H). repeat (split; [assumption|]).
-      destruct H as [H|(H1 & t & H2 & H3 & H4 & H5)]; [left; exact H|right; split; [exact H1|]; exists t; repeat split; auto; lia]. }
+      destruct H as [H|(t & H2 & H3 & H4 & H5 & H6)]; [left; exact H|right; exists t; repeat split; auto; lia]. }
     destruct TE as [(-> & _)|(t & -> & _)]; rewrite ?gs_ss_same; rewrite Hsame; cbn [w_chg w_path s_otype s_ex s_hash s_path]; auto.
   - (* the path is already known *)
     rewrite HpC, Hps. rewrite (proj2 (ostr_eqb_eq _ _) eq_refl). cbn [rbind].
@@ -366,7 +367,7 @@ Proof.
     assert (Hle: now (w_st wC) <= now (w_st wF)) by (destruct WF as (_ & _ & _ & _ & (_ & _ & C3 & _) & _); exact C3).
     split.
     { destruct PC as (A & B & C & D & F & G & H). repeat (split; [assumption|]).
-      destruct H as [H|(H1 & t & H2 & H3 & H4 & H5)]; [left; exact H|right; split; [exact H1|]; exists t; repeat split; auto; lia]. }
+      destruct H as [H|(t & H2 & H3 & H4 & H5 & H6)]; [left; exact H|right; exists t; repeat split; auto; lia]. }
     repeat split; auto. congruence.
 Qed.
 
@@ -375,14 +376,13 @@ Lemma prog_maxchg en en' sd nw m : prog en en' sd nw m -> maxchg en <= maxchg en
 Proof.
   intros (A & _ & _ & _ & _ & _ & G). unfold maxchg, chgv.
   assert (Hs: chgval (s_chg (gs en sd)) <= chgval (s_chg (gs en' sd))).
-  { destruct G as [(G & _)|(G & t & G2 & _)]; [rewrite G; apply N.le_refl|].
-    rewrite G2. destruct (s_chg (gs en sd)) as [| |c]; simpl in *; try lia. destruct c; [lia|discriminate]. }
+  { destruct G as [(G & _)|(t & G2 & _ & G3 & _)]; [rewrite G; apply N.le_refl|]. rewrite G2. exact G3. }
   destruct sd; simpl in *; rewrite A; lia.
 Qed.
 Lemma prog_flag evl en en' sd nw m k : prog en en' sd nw m -> flagP evl en sd k -> flagP evl en' sd k.
 Proof.
   intros (_ & _ & _ & _ & _ & _ & G) [F|F]; [|right; exact F]. left.
-  destruct G as [(G & _)|(G & _)]; [rewrite G; exact F|congruence].
+  destruct G as [(G & _)|(t & G & G2 & _)]; [rewrite G; exact F|rewrite G; exact G2].
 Qed.
 Lemma prog_flag_other evl en en' sd nw m k : prog en en' sd nw m -> flagP evl en (negb sd) k -> flagP evl en' (negb sd) k.
 Proof. intros (A & _) [F|F]; [left; rewrite A; exact F|right; exact F]. Qed.
@@ -401,7 +401,8 @@ Lemma EntOk_side evl evl' g w w' e en en' sd nw m :
      (pd evl' sd k = true \/ x_lg (getx w' e sd) < maxchg en' \/ freshP (gs en' sd) ob) /\
      popt (s_path (gs en' sd)) (pstr (ProvModel.o_path ob)) /\
      (is_discarded (e_ign en) = false -> forall cs, g_get k (g_of g sd) = Some cs ->
-        hopt (s_hash (gs en' sd)) cs /\ (s_path (gs en' sd) <> None -> s_hash (gs en' sd) <> None)) /\
+        hopt (s_hash (gs en' sd)) cs /\ (s_path (gs en' sd) <> None -> s_hash (gs en' sd) <> None) /\
+        (s_spath (gs en sd) <> None -> s_path (gs en' sd) <> None)) /\
      (is_discarded (e_ign en) = false -> g_get k (g_of g sd) = None ->
         s_ex (gs en' sd) = ExExists /\ s_hash (gs en' sd) = Some (ProvModel.o_data ob) /\
         s_path (gs en' sd) = Some (pstr (ProvModel.o_path ob)))) ->
@@ -423,7 +424,7 @@ Proof.
       * rewrite Poid. intros o Ho'. destruct (c4 o Ho') as (k & ob & -> & Hob & Hk & F).
         exists k, ob. split; [reflexivity|]. split; [rewrite Hobj; exact Hob|]. split; [exact Hk|].
         destruct (Hnew k ob Ho' Hob) as (N1 & N2 & N3 & N4 & N5).
-        destruct F as [f1 f2 f3 f4 f5 f6 f7 f8 f9].
+        destruct F as [f1 f2 f3 f4 f5 f6 f7 f8 f10 f9].
         assert (Hfl: flagP evl en sd k -> flagP evl' en' sd k).
         { intros X. apply (prog_flag evl' en en' sd nw m k P). destruct X as [X|X]; [left; exact X|right; apply Hpd; exact X]. }
         constructor; rewrite ?Pother, ?Pign, ?Pspath, ?Pshash.
@@ -434,10 +435,12 @@ Proof.
         -- exact f5.
         -- intros Hd Ho2. apply Hfl. apply f6; assumption.
         -- intros Hd Ho2. destruct (f7 Hd Ho2) as [X|X]; [left; apply Hfl; exact X|right; exact X].
-        -- intros Hd cs Hcs. destruct (f8 Hd cs Hcs) as (P1 & P2 & P3 & P4 & P5). destruct (N4 Hd cs Hcs) as (M1 & M2).
+        -- intros Hd cs Hcs. destruct (f8 Hd cs Hcs) as (P1 & P2 & P3 & P4 & P5). destruct (N4 Hd cs Hcs) as (M1 & M2 & M3).
            split; [exact M1|]. split; [exact P2|]. split; [exact P3|]. split; [exact M2|].
            intros Ho2. destruct (P5 Ho2) as (Q1 & Q2 & Q3 & Q4). split; [exact Q1|]. split; [exact Q2|]. split; [|exact Q4].
            destruct Q3 as [Q3|(Q3 & Q5)]; [left; exact Q3|right; split; [exact Q3|apply Hfl; exact Q5]].
+        -- intros Hd cs Hcs. destruct (f10 Hd cs Hcs) as (P1 & P2). destruct (N4 Hd cs Hcs) as (M1 & M2 & M3).
+           split; [exact P1|exact M3].
         -- intros Hd Hcs. destruct (f9 Hd Hcs) as (P1 & P2 & P3 & P4 & P5 & P6 & (k' & ob' & R1 & R2 & R3 & R4)).
            destruct (N5 Hd Hcs) as (M1 & M2 & M3).
            split; [exact P1|]. split; [exact M1|]. split; [exact P3|]. split; [exact M2|]. split; [exact P5|]. split; [exact M3|].
@@ -448,7 +451,7 @@ Proof.
       exists k1, ob1. split; [reflexivity|]. split; [rewrite Hobj; exact Hob1|]. split; [exact Hk1|].
       assert (Hfl: flagP evl en (negb sd) k1 -> flagP evl' en' (negb sd) k1).
       { intros X. apply (prog_flag_other evl' en en' sd nw m k1 P). destruct X as [X|X]; [left; exact X|right; apply Hpd; exact X]. }
-      destruct F as [f1 f2 f3 f4 f5 f6 f7 f8 f9]. rewrite negb_inv in f6, f7, f8, f9.
+      destruct F as [f1 f2 f3 f4 f5 f6 f7 f8 f10 f9]. rewrite negb_inv in f6, f7, f8, f10, f9.
       constructor; rewrite ?Pother, ?Pign, ?negb_inv, ?Poid, ?Pshash.
       * exact f1.
       * destruct f2 as [X|[X|X]]; [left; auto|right; left; rewrite Hlgo; lia|right; right; exact X].
@@ -461,6 +464,7 @@ Proof.
         split; [exact P1|]. split; [exact P2|]. split; [exact P3|]. split; [exact P4|].
         intros Ho2. destruct (P5 Ho2) as (Q1 & Q2 & Q3 & Q4). split; [exact Q1|]. split; [exact Q2|]. split; [|exact Q4].
         destruct Q3 as [Q3|(Q3 & Q5)]; [left; exact Q3|right; split; [exact Q3|auto]].
+      * exact f10.
       * intros Hd Hcs. destruct (f9 Hd Hcs) as (P1 & P2 & P3 & P4 & P5 & P6 & (k' & ob' & R1 & R2 & R3 & R4)).
         repeat (split; [assumption|]). exists k', ob'. rewrite Hobj. auto.
 Qed.
